@@ -15,6 +15,12 @@
 //! `Handle::new`, a `<publish>` without tag, an error reply without errors,
 //! an empty base64 payload, a sub-second `not_after`) are still generated, but
 //! what happens to them is only *recorded* (`lenient:*` observations).
+//!
+//! Literal cases (`vcheck C11 --case f`): a libFuzzer input of target
+//! `c11_xml`, `{"fuzz_target": "xml", "hex": bytes}` (octet 0 selects one of the
+//! six parsers, the rest is the document; judged by the same `feed_parser` as
+//! the mutants of oracle 3), or `{"write_corpus": dir}` which writes the seed
+//! corpus of that target.
 
 // Helper modules of this monitor (value generators, document mutators). They
 // are declared here so that `lib.rs` needs no extra `pub mod` lines.
@@ -1121,6 +1127,11 @@ fn feed_parser(ctx: &mut Ctx, kind: Kind, origin: &str, mutator: &'static str, d
 }
 
 pub fn run(ctx: &mut Ctx) {
+    // literal cases: libFuzzer artifact / seed corpus of the fuzz stage
+    if let Some(case) = ctx.case.clone() {
+        run_case(ctx, &case);
+        return;
+    }
     let no_ffi = ctx.no_ffi();
     gen::set_small(ctx.is_miri());
     let crypto = if no_ffi {
@@ -1303,4 +1314,100 @@ pub fn run(ctx: &mut Ctx) {
     if wf.enabled && wf.checked == 0 {
         ctx.notes.push("C11: the expat oracle checked no document in this shard".into());
     }
+}
+
+//------------ libFuzzer target c11_xml / literal cases -----------------------
+
+fn judge_fuzz_input(ctx: &mut Ctx, data: &[u8]) {
+    let Some((sel, doc)) = data.split_first() else { return };
+    let kind = KINDS[*sel as usize % KINDS.len()];
+    feed_parser(ctx, kind, "(libFuzzer input)", "libfuzzer", doc);
+}
+
+/// One libFuzzer execution of target `c11_xml`: the first octet selects one
+/// of the six parsers, the rest is the document. Oracle 3 as in the native
+/// stage (`feed_parser`): no panic in the parser, in writing an accepted value
+/// and in parsing that again (a library panic propagates, libFuzzer aborts on
+/// it); a record of hook H1 panics with a message that starts with the
+/// violation signature, so the crash artifact replays natively through
+/// `vcheck C11 --case` under the same name.
+pub fn fuzz_one(group: &str, data: &[u8]) {
+    let _ = group; // one group: "xml"
+    let mut ctx = Ctx::new("C11", crate::core::Tier::Thorough, Stage::Native, 0, 0, 1);
+    judge_fuzz_input(&mut ctx, data);
+    if ctx.violation_count() > 0 {
+        let out = ctx.finish();
+        let v = &out["violations"][0];
+        panic!("{} -- {}", v["sig"].as_str().unwrap_or("C11:fuzz:unnamed"), v["desc"].as_str().unwrap_or(""));
+    }
+}
+
+/// Seed corpus of target `c11_xml`: documents the library writes for messages
+/// from the module's generator (all variants of the three protocols, small
+/// sizes first, certificate-bearing ones included when the pool is there),
+/// each under the selector octet of its own parser.
+fn write_corpus(ctx: &mut Ctx, dir: &str) {
+    let gdir = std::path::PathBuf::from(dir).join("c11_xml");
+    let _ = std::fs::create_dir_all(&gdir);
+    let crypto = if ctx.no_ffi() {
+        None
+    } else {
+        match crate::core::catch(Crypto::build) {
+            Ok(Ok(c)) => Some(c),
+            _ => {
+                ctx.notes.push("C11: seed corpus without certificate-bearing variants (could not build certificates)".into());
+                None
+            }
+        }
+    };
+    let mut g = Gen { rng: ctx.rng("corpus"), crypto: crypto.as_ref(), refused_uri: 0, refused_handle: 0, res_stats: gen::ResStats::default(), refused_other: 0 };
+    let mut written = 0u64;
+    let mut per_variant: std::collections::BTreeMap<&'static str, u32> = std::collections::BTreeMap::new();
+    for i in 0..4000u32 {
+        if written >= 480 {
+            break;
+        }
+        // small shapes for most of the corpus, the normal generator for the rest
+        gen::set_small(i % 4 != 3);
+        let Ok(case) = crate::core::catch(|| g.case()) else { continue };
+        let n = per_variant.entry(case.variant).or_insert(0);
+        if *n >= 32 {
+            continue;
+        }
+        let Ok(Ok(doc)) = crate::core::catch(|| case.msg.write()) else { continue };
+        if doc.len() + 1 > 12_000 {
+            continue;
+        }
+        let sel = KINDS.iter().position(|k| *k == case.msg.kind()).unwrap_or(0) as u8;
+        let mut bytes = vec![sel];
+        bytes.extend_from_slice(&doc);
+        if std::fs::write(gdir.join(format!("{:016x}", crate::core::fnv64(&bytes))), &bytes).is_ok() {
+            written += 1;
+            *n += 1;
+        }
+    }
+    gen::set_small(false);
+    ctx.drain_chain_hook(|| json!("writing the fuzz seed corpus"));
+    ctx.obs("fuzz_corpus_files_written", written);
+    ctx.obs("fuzz_corpus_variants", per_variant.len() as u64);
+    ctx.evals(written);
+    ctx.sig("corpus-written");
+    ctx.sig("corpus");
+}
+
+fn run_case(ctx: &mut Ctx, case: &Value) {
+    if let Some(dir) = case["write_corpus"].as_str() {
+        write_corpus(ctx, dir);
+        return;
+    }
+    if case["fuzz_target"].as_str().is_some() {
+        let raw = crate::core::unhex(case["hex"].as_str().unwrap_or(""));
+        judge_fuzz_input(ctx, &raw);
+        ctx.sig("replay");
+        if let Some(sel) = raw.first() {
+            ctx.sig(&format!("replay|{}", KINDS[*sel as usize % KINDS.len()].name()));
+        }
+        return;
+    }
+    ctx.notes.push("C11: case file of unknown shape".into());
 }
